@@ -116,22 +116,23 @@ theorem hasAggL_items2 (q : S2.Query) : ∀ (items : List S2.Item), hasAggL (ite
     | idOf x al => cases al <;> simp [S2.Item.tr, S2.col, hasAgg]
     | prop x k al => cases al <;> simp [S2.Item.tr, S2.col, S1.strLit, hasAgg]
 
-/-- the whole statement, given the frame's FROM rows in either join order, the meaning of its WHERE, and the bindings the frame keeps
-(every binding a RETURN item reads is kept) -/
+/-- the whole statement, given the frame's FROM rows in either join order, the meaning of its WHERE, the bindings the frame keeps (every
+binding a RETURN item reads is kept) and the LIMIT literals of the frame (`kf`) and of the statement (`ko`) -/
 theorem sql_hop_ben (km : KindMap) (g : Graph) (q : S2.Query) (ke ka kb : Bool) (hkeep : ∀ it ∈ q.items, keepOf ke ka kb it.ref = true)
+    (kf ko : Option Nat)
     {T : Type} (ts : List T) (lv : T → Level) (eOf : T → EdgeRec) (aOf bOf : T → NodeRec) (joins : List Join)
     (hfrom : BenignT (evalFromClauses (E0 (encode km g)) [[]] [.mk (.table ["edge"] (some "e0")) joins]) (ts.map lv))
     (hb : ∀ t ∈ ts, findBinding "e0" (lv t) = some (eB km (eOf t)) ∧ findBinding "n0" (lv t) = some (nB "n0" km (aOf t)) ∧
       findBinding "n1" (lv t) = some (nB "n1" km (bOf t)))
     (wh : Option Expr) (pw : T → Bool) (hwh : ∀ t ∈ ts, BenignT (whTest (E0 (encode km g)) wh (lv t)) (pw t)) :
     ∃ names, BenignT (Sql.eval (encode km g) (.query (.mk false
-      [.mk "s0" none none (Query.simple (.select false (S2.frameProj ke ka kb) [.mk (.table ["edge"] (some "e0")) joins] wh [] none))]
-      (.select false (q.items.map (S2.Item.tr q)) [.mk (.table ["s0"] none) []] none [] none) [] none none)) [])
-      (⟨names, (ts.filter pw).map (fun t => q.items.map (itemVal2 km (eOf t) (aOf t) (bOf t)))⟩ : Table) := by
-  rw [eval_cteStmt]
-  generalize hts : ts.filter pw = ts'
+      [.mk "s0" none none (.mk false [] (.select false (S2.frameProj ke ka kb) [.mk (.table ["edge"] (some "e0")) joins] wh [] none) [] none (kf.map S1.natLitS))]
+      (.select false (q.items.map (S2.Item.tr q)) [.mk (.table ["s0"] none) []] none [] none) [] none (ko.map S1.natLitS))) [])
+      (⟨names, (cutN none ko (cutN none kf (ts.filter pw))).map (fun t => q.items.map (itemVal2 km (eOf t) (aOf t) (bOf t)))⟩ : Table) := by
+  rw [eval_cteStmt_lim]
+  generalize hts : cutN none kf (ts.filter pw) = ts'
   generalize ht0 : (⟨keptCols ke ka kb, ts'.map (fun t => keptVals km ke ka kb (eOf t) (aOf t) (bOf t))⟩ : Table) = t0
-  have hfr := hop_frame_ben km g ke ka kb ts lv eOf aOf bOf _ hfrom hb wh pw hwh
+  have hfr := hop_frame_lim km g ke ka kb kf ts lv eOf aOf bOf _ hfrom hb wh pw hwh
   rw [hts, ht0] at hfr
   have hl : lookupTableE (E1 (encode km g) t0) "s0" = .ok t0 := by simp [lookupTableE, E1]
   have hrows : (t0.rows.map (fun r => [(⟨(none : Option String).getD "s0", t0.cols, r⟩ : Binding)])) = ts'.map (fun t => sLvlK km ke ka kb (eOf t) (aOf t) (bOf t)) := by
@@ -142,7 +143,10 @@ theorem sql_hop_ben (km : KindMap) (g : Graph) (q : S2.Query) (ke ka kb : Bool) 
   simp only [ebind_ok]
   rw [mapE_map_ok (fun t => sLvlK km ke ka kb (eOf t) (aOf t) (bOf t)) _
     (fun t => (q.items.map (itemVal2 km (eOf t) (aOf t) (bOf t)), some ((E1 (encode km g) t0).push (sLvlK km ke ka kb (eOf t) (aOf t) (bOf t)))))]
-  · simp only [ebind_ok, epure_ok, List.map_map, Function.comp_def]
+  · simp only [ebind_ok, epure_ok]
+    cases ko with
+    | none => simp [cutN, List.map_map, Function.comp_def]
+    | some k => simp [cutN, List.map_take, List.map_map, Function.comp_def]
   · intro t _
     rw [evalProj_items2 km q ke ka kb _ _ _ _ _ q.items hkeep]; rfl
 
@@ -382,6 +386,11 @@ theorem rows_perm (km : KindMap) (g : Graph) (q : S2.Query) (hn : ∀ n ∈ g.no
   rw [hcongr]
   exact hM.map _
 
+theorem cutN_map {α β : Type} (f : α → β) (k : Option Nat) (xs : List α) : cutN none k (xs.map f) = (cutN none k xs).map f := by
+  cases k with
+  | none => rfl
+  | some k => simp [cutN, List.map_take]
+
 /-- rows of the statement over a list of matches that is a permutation of Cypher's matches -/
 theorem rows_perm' (km : KindMap) (g : Graph) (q : S2.Query) (hn : ∀ n ∈ g.nodes, g.node? n.id = some n) (he : ∀ e ∈ g.edges, g.edge? e.id = some e)
     (names : List String) (M : List (NodeRec × EdgeRec × NodeRec)) (hM : M.Perm (whereMatchesCy g q)) :
@@ -401,17 +410,25 @@ theorem rows_perm' (km : KindMap) (g : Graph) (q : S2.Query) (hn : ∀ n ∈ g.n
   rw [hcongr]
   exact hM.map _
 
+/-- the matches in the order the statement's frame produces them: the scan order of the FROM clause for the chosen join order, filtered by
+the statement's WHERE (a function of the join order only — not of pruning, not of any LIMIT) -/
+def hopM (g : Graph) (q : S2.Query) : Bool → List (NodeRec × EdgeRec × NodeRec)
+  | false => ((hopTriples g (pA' q) (pB' q)).filter (fun t => wR' q t.1.1)).map (fun t => (t.1.2, t.1.1, t.2))
+  | true => ((hopTriples g (pB' q) (pA' q)).filter (fun t => wR' q t.1.1)).map (fun t => (t.2, t.1.1, t.1.2))
+
 /-- STAGE S2 (one directed hop with an optional WHERE of single-variable conjuncts), for ALL graphs satisfying `GraphOK2`, ALL queries of the
 stage, BOTH join orders and the frame with or without projection pruning: the reference semantics yields a result; the emitted statement either yields a table whose client-visible rows
 are a permutation of the Cypher rows, or the SQL model stops with `unmodelled` (never a run-time / type / name error) -/
-theorem s2_sound (km : KindMap) (g : Graph) (hok : GraphOK2 km g) (q : S2.Query) (flip prune : Bool) (st : Stmt) (h : q.trWith km flip prune = some st) :
-    ∃ r names rows, Cy.eval .none g q.toCy = .ok r ∧ BenignT (Sql.eval (encode km g) st []) (⟨names, rows⟩ : Table) ∧
-      (sqlRows ⟨names, rows⟩).Perm (cyRows g km r) := by
+theorem s2_sound_lim (km : KindMap) (g : Graph) (hok : GraphOK2 km g) (q : S2.Query) (flip prune : Bool) (kf ko : Option Nat) (st : Stmt)
+    (h : q.stmtWith km flip prune (kf.map S1.natLitS) (ko.map S1.natLitS) = some st) :
+    ∃ r names, Cy.eval .none g q.toCy = .ok r ∧ (hopM g q flip).Perm (whereMatchesCy g q) ∧
+        BenignT (Sql.eval (encode km g) st []) (⟨names, (cutN none ko (cutN none kf (hopM g q flip))).map (fun m => q.items.map (itemVal2 km m.2.1 m.1 m.2.2))⟩ : Table) ∧
+        r = (Cy.projNames (q.items.map (S2.Item.toCy q)), (whereMatchesCy g q).map (fun m => q.items.map (itemC2 m.1 m.2.1 m.2.2))) := by
   have hnd := hok.nodup
   have hinj := hok.inj
   have hn : ∀ n ∈ g.nodes, g.node? n.id = some n := find_of_nodup g.nodes hnd
   have he : ∀ e ∈ g.edges, g.edge? e.id = some e := fun e hm => hok.edge? e hm
-  unfold S2.Query.trWith at h
+  unfold S2.Query.stmtWith at h
   cases hwf : q.wf with
   | false => simp [hwf] at h
   | true =>
@@ -462,7 +479,7 @@ theorem s2_sound (km : KindMap) (g : Graph) (hok : GraphOK2 km g) (q : S2.Query)
     simp only [Bool.false_eq_true, if_false] at h
     subst h
     have hfrom := hop_from_ben km g "n0" "n1" _ _ (pA' q) (pB' q) (by decide) (by decide) (by decide) honA honB
-    obtain ⟨names, hsql⟩ := sql_hop_ben km g q _ _ _ hkeep (hopTriples g (pA' q) (pB' q)) (fun t => [eB km t.1.1, nB "n0" km t.1.2, nB "n1" km t.2])
+    obtain ⟨names, hsql⟩ := sql_hop_ben km g q _ _ _ hkeep kf ko (hopTriples g (pA' q) (pB' q)) (fun t => [eB km t.1.1, nB "n0" km t.1.2, nB "n1" km t.2])
       (fun t => t.1.1) (fun t => t.1.2) (fun t => t.2) _ hfrom
       (fun t _ => ⟨by simp [findBinding, eB], by simp [findBinding, eB, nB], by simp [findBinding, eB, nB]⟩)
       _ (fun t => wR' q t.1.1)
@@ -471,14 +488,15 @@ theorem s2_sound (km : KindMap) (g : Graph) (hok : GraphOK2 km g) (q : S2.Query)
     have hM : (((hopTriples g (pA' q) (pB' q)).filter (fun t => wR' q t.1.1)).map (fun t => (t.1.2, t.1.1, t.2))).Perm (whereMatchesCy g q) := by
       rw [sqlMatches'_eq, whereMatchesCy_eq, sqlMatches_eq g hnd q]
       exact hCyPerm.filter _
-    refine ⟨_, names, _, hcy, hsql, ?_⟩
-    have := rows_perm' km g q hn he names _ hM
-    simpa [List.map_map, Function.comp_def] using this
+    refine ⟨_, names, hcy, hM, ?_, rfl⟩
+    simp only [hopM]
+    rw [cutN_map, cutN_map, List.map_map]
+    exact hsql
   | true =>
     simp only [if_true] at h
     subst h
     have hfrom := hop_from_ben km g "n1" "n0" _ _ (pB' q) (pA' q) (by decide) (by decide) (by decide) honB honA
-    obtain ⟨names, hsql⟩ := sql_hop_ben km g q _ _ _ hkeep (hopTriples g (pB' q) (pA' q)) (fun t => [eB km t.1.1, nB "n1" km t.1.2, nB "n0" km t.2])
+    obtain ⟨names, hsql⟩ := sql_hop_ben km g q _ _ _ hkeep kf ko (hopTriples g (pB' q) (pA' q)) (fun t => [eB km t.1.1, nB "n1" km t.1.2, nB "n0" km t.2])
       (fun t => t.1.1) (fun t => t.2) (fun t => t.1.2) _ hfrom
       (fun t _ => ⟨by simp [findBinding, eB], by simp [findBinding, eB, nB], by simp [findBinding, eB, nB]⟩)
       _ (fun t => wR' q t.1.1)
@@ -487,9 +505,21 @@ theorem s2_sound (km : KindMap) (g : Graph) (hok : GraphOK2 km g) (q : S2.Query)
     have hM : (((hopTriples g (pB' q) (pA' q)).filter (fun t => wR' q t.1.1)).map (fun t => (t.2, t.1.1, t.1.2))).Perm (whereMatchesCy g q) := by
       rw [sqlMatches'_flip_eq, whereMatchesCy_eq]
       exact ((sqlMatches_flip_perm g hnd q).trans hCyPerm).filter _
-    refine ⟨_, names, _, hcy, hsql, ?_⟩
-    have := rows_perm' km g q hn he names _ hM
-    simpa [List.map_map, Function.comp_def] using this
+    refine ⟨_, names, hcy, hM, ?_, rfl⟩
+    simp only [hopM]
+    rw [cutN_map, cutN_map, List.map_map]
+    exact hsql
+
+/-- STAGE S2 without LIMIT: the rows are a permutation of the Cypher rows -/
+theorem s2_sound (km : KindMap) (g : Graph) (hok : GraphOK2 km g) (q : S2.Query) (flip prune : Bool) (st : Stmt) (h : q.trWith km flip prune = some st) :
+    ∃ r names rows, Cy.eval .none g q.toCy = .ok r ∧ BenignT (Sql.eval (encode km g) st []) (⟨names, rows⟩ : Table) ∧
+      (sqlRows ⟨names, rows⟩).Perm (cyRows g km r) := by
+  have hn : ∀ n ∈ g.nodes, g.node? n.id = some n := find_of_nodup g.nodes hok.nodup
+  have he : ∀ e ∈ g.edges, g.edge? e.id = some e := fun e hm => hok.edge? e hm
+  obtain ⟨r, names, hcy, hM, hsql, hr⟩ := s2_sound_lim km g hok q flip prune none none st h
+  refine ⟨r, names, _, hcy, hsql, ?_⟩
+  rw [hr]
+  exact rows_perm' km g q hn he names _ hM
 
 theorem graphOK2b_sound (km : KindMap) (g : Graph) (h : graphOK2b km g = true) : GraphOK2 km g := by
   unfold graphOK2b at h
